@@ -93,6 +93,16 @@ func runC09(c *Ctx) {
 			nSites++
 			d := c09Discharge(c, facts(), s, via)
 			key := c09Key(s)
+			if !d.OK && isNewHelper(s.Fn) {
+				// a site that moved into a new helper: it is the reviewed site of each function
+				// that calls the helper, read with that call's arguments
+				if ok, how, rows := c09ViaCallers(p, s, via); ok {
+					for _, ri := range rows {
+						usedRows[fmt.Sprint(ri)] = true
+					}
+					d = Discharge{true, how, ""}
+				}
+			}
 			if !d.OK {
 				if i, row := c09FindRow(s); row != nil {
 					usedRows[fmt.Sprint(i)] = true
@@ -121,6 +131,7 @@ func runC09(c *Ctx) {
 
 	// ---- hang rules (join counters and result channels local to a handler)
 	checkHangRules(c, fns)
+	checkLoopProgress(c, fns)
 
 	// ---- validators answer Reject/Ignore on error edges
 	acc, _ := p.constValue("pkg/p2p", "ValidationAccept")
@@ -462,3 +473,40 @@ func methodDerefsReceiver(g *ssa.Function) bool {
 }
 
 var _ = fmt.Sprint
+
+// c09ViaCallers discharges a site inside a new helper through the table rows of the known
+// functions that call the helper (one level): the site's description is rewritten with each
+// call's arguments and must match a row of that caller whose required facts hold there.
+func c09ViaCallers(p *Program, s PanicSite, via map[*ssa.Function][]string) (bool, string, []int) {
+	sites := callSitesOfHelper(s.Fn)
+	if len(sites) == 0 {
+		return false, "", nil
+	}
+	var rows []int
+	var hows []string
+	for _, cs := range sites {
+		root := cs.Parent()
+		if isNewHelper(root) {
+			return false, "", nil
+		}
+		desc := s.Desc
+		tb := newTB()
+		tb.keepConv = true
+		for k, a := range cs.Common().Args {
+			desc = strings.ReplaceAll(desc, fmt.Sprintf("%s·p%d", FuncName(s.Fn), k), tb.of(a, 0).String())
+		}
+		s2 := s
+		s2.Fn = root
+		s2.Desc = desc
+		i, row := c09FindRow(s2)
+		if row == nil {
+			return false, "", nil
+		}
+		if ok, _ := c09RowHolds(p, factsOfConv(root), s2, row, via); !ok {
+			return false, "", nil
+		}
+		rows = append(rows, i)
+		hows = append(hows, FuncKey(root)+": "+row.reason)
+	}
+	return true, "reviewed table row of each caller of the new helper: " + strings.Join(hows, "; "), rows
+}
